@@ -36,6 +36,47 @@ func executeIntegerMath(lhs, rhs int64, op ast.BinaryOperator) (int64, error) {
 	}
 }
 
+// integerMath returns the integer result of lhs op rhs when that result fits
+// in an int64, and otherwise falls back on floating point math rather than
+// silently wrapping around.
+func integerMath(lhs, rhs int64, op ast.BinaryOperator) (any, error) {
+	if !intMathFits(lhs, rhs, op) {
+		return executeFloatMath(float64(lhs), float64(rhs), op)
+	}
+	return executeIntegerMath(lhs, rhs, op)
+}
+
+// intMathFits returns true if the result of lhs op rhs fits in an int64.
+func intMathFits(lhs, rhs int64, op ast.BinaryOperator) bool {
+	switch op {
+	case ast.BinaryAdd:
+		if rhs > 0 {
+			return lhs <= math.MaxInt64-rhs
+		}
+		return lhs >= math.MinInt64-rhs
+	case ast.BinarySub:
+		if rhs > 0 {
+			return lhs >= math.MinInt64+rhs
+		}
+		return lhs <= math.MaxInt64+rhs
+	case ast.BinaryMul:
+		switch {
+		case lhs > 0 && rhs > 0:
+			return lhs <= math.MaxInt64/rhs
+		case lhs > 0:
+			return rhs >= math.MinInt64/lhs
+		case rhs > 0:
+			return lhs >= math.MinInt64/rhs
+		default:
+			return lhs == 0 || rhs >= math.MaxInt64/lhs
+		}
+	case ast.BinaryDiv:
+		return lhs != math.MinInt64 || rhs != -1
+	default:
+		return true
+	}
+}
+
 // executeIntegerMath compares lhs to rhs using op and returns the resulting
 // value. op must be a binary math operator. Returns an error for an attempt
 // to divide by zero.
@@ -193,12 +234,12 @@ func execMathOp(left, right any, op ast.BinaryOperator) (any, error) {
 	case int64:
 		switch right := right.(type) {
 		case int64:
-			return executeIntegerMath(left, right, op)
+			return integerMath(left, right, op)
 		case float64:
 			return executeFloatMath(float64(left), right, op)
 		case json.Number:
 			if right, err := right.Int64(); err == nil {
-				return executeIntegerMath(left, right, op)
+				return integerMath(left, right, op)
 			}
 			if right, err := right.Float64(); err == nil {
 				return executeFloatMath(float64(left), right, op)
